@@ -108,6 +108,8 @@ def make_c15_replay(ref, v):
     expected = {'kind': 'multiset', 'arrays': [_arr_hex(data[lv][b][..., fexp[1]]) for b in range(len(ref.boxes[lv]))]}
     case = {'property': 'C15', 'handler': 'c15_list', 'signature': v['signature'], 'what': v['what'],
             'call': v['call'], 'expected': expected, 'structure': ref.describe()}
+    if v.get('short_peek'):
+        case['buffering'] = 2           # binary files are read through a two-byte buffer: peek() comes back short
     if v.get('retain'):
         case['retain'] = True           # one level-data object: a box read, then iterated repeatedly
     with open(os.path.join(d, 'case.json'), 'w') as f:
@@ -235,6 +237,15 @@ def _replay_c01_once(d, case, env, prefix):
 
 def replay_c15_list(d, case):
     from amr_kitchen import PlotfileCooker
+    if case.get('buffering'):
+        import builtins
+        real_open = builtins.open
+
+        def small_buffer_open(file, mode='r', buffering=-1, *a, **k):
+            if 'b' in mode and 'r' in mode and '+' not in mode and buffering == -1:
+                buffering = case['buffering']
+            return real_open(file, mode, buffering, *a, **k)
+        builtins.open = small_buffer_open       # inherited by the pool's workers (fork)
     pck = PlotfileCooker(os.path.join(d, 'plt'))
     fsel = eval(case['call'][0], {'np': np})
     lv = int(case['call'][1])
